@@ -44,6 +44,8 @@ struct Case {
     prefill: usize,
     /// > 0: caller 0's response body has this many bytes (larger than the reader's initial 32 KiB allocation)
     big: usize,
+    /// >= 0: the peer stops reading - the stream accepts this many request bytes in total, then writes stay pending
+    wblock: i64,
 }
 
 const CUT_KINDS: [&str; 5] = ["eof", "read-error", "write-error", "silence", "silence-after-keepalive"];
@@ -64,7 +66,7 @@ fn breaks_connection(k: &str) -> bool {
 
 impl Case {
     fn to_json(&self, choices: &[usize]) -> Value {
-        json!({"leg":"router-faults","n":self.n,"answer":self.answer,"kind":self.kind,"cut":self.cut,"late":self.late,"coalescing":self.coalescing,"read_chunk":self.read_chunk,"keepalive_everywhere":self.keepalive_everywhere,"prefill":self.prefill,"big":self.big,"choices":choices})
+        json!({"leg":"router-faults","n":self.n,"answer":self.answer,"kind":self.kind,"cut":self.cut,"late":self.late,"coalescing":self.coalescing,"read_chunk":self.read_chunk,"keepalive_everywhere":self.keepalive_everywhere,"prefill":self.prefill,"big":self.big,"wblock":self.wblock,"choices":choices})
     }
     fn from_json(v: &Value) -> Case {
         Case {
@@ -78,6 +80,7 @@ impl Case {
             keepalive_everywhere: v["keepalive_everywhere"].as_bool().unwrap_or(false),
             prefill: v["prefill"].as_u64().unwrap_or(0) as usize,
             big: v["big"].as_u64().unwrap_or(0) as usize,
+            wblock: v["wblock"].as_i64().unwrap_or(-1),
         }
     }
 }
@@ -106,6 +109,9 @@ fn run_case(case: &Case, ch: &mut Chooser) -> (Result<(), String>, Run) {
             prefill: case.prefill,
         };
         let mut w = World::new(cfg, case.read_chunk);
+        if case.wblock >= 0 {
+            w.ctl.set_write_budget(Some(case.wblock as usize));
+        }
         let r = drive(case, ch, &mut w, &mut run).await;
         run.trace = w.finish_trace();
         drop(w);
@@ -133,11 +139,18 @@ async fn drive(case: &Case, ch: &mut Chooser, w: &mut World, run: &mut Run) -> R
     }
     let in_flight: Vec<usize> = w.held.iter().filter_map(|h| h.caller).collect();
     let expect_in_flight = if case.prefill > 0 { case.n.min(32768 - case.prefill) } else { case.n };
-    if in_flight.len() != expect_in_flight {
+    if case.wblock >= 0 {
+        // the peer stopped reading: it has whatever complete frames fit into the accepted bytes; the rest sits unflushed
+        // (or half-written) on the driver's side
+        w.log(format!("peer stopped reading after {} bytes: {} of {} requests reached it", case.wblock, in_flight.len(), case.n));
+    } else if in_flight.len() != expect_in_flight {
         return Err(format!("harness|{} of {} requests reached the peer before the fault, expected {}", in_flight.len(), case.n, expect_in_flight));
     }
     // with a pre-filled id space the callers beyond the free ids were refused at once; `answer` indexes the others
-    let answer: Vec<usize> = if case.prefill > 0 {
+    let answer: Vec<usize> = if case.wblock >= 0 {
+        // the peer can only answer what it received (which requests those are depends on the schedule)
+        case.answer.iter().filter_map(|&a| in_flight.get(a).copied()).collect()
+    } else if case.prefill > 0 {
         let mut v = Vec::new();
         for &a in &case.answer {
             match in_flight.get(a) {
@@ -475,10 +488,10 @@ fn cases(thorough: bool) -> Vec<Case> {
                         for late in lates {
                             let chunks: Vec<usize> = vec![0, 1];
                             for read_chunk in chunks {
-                                v.push(Case { n, answer: answer.clone(), kind: kind.to_string(), cut, late, coalescing: co.to_string(), read_chunk, keepalive_everywhere: false, prefill: 0, big: 0 });
+                                v.push(Case { n, answer: answer.clone(), kind: kind.to_string(), cut, late, coalescing: co.to_string(), read_chunk, keepalive_everywhere: false, prefill: 0, big: 0, wblock: -1 });
                                 if thorough && !is_silence(kind) && read_chunk == 0 {
                                     // the same fault with the keep-aliver armed (its select! and timers are then part of the joined router)
-                                    v.push(Case { n, answer: answer.clone(), kind: kind.to_string(), cut, late, coalescing: co.to_string(), read_chunk, keepalive_everywhere: true, prefill: 0, big: 0 });
+                                    v.push(Case { n, answer: answer.clone(), kind: kind.to_string(), cut, late, coalescing: co.to_string(), read_chunk, keepalive_everywhere: true, prefill: 0, big: 0, wblock: -1 });
                                 }
                             }
                         }
@@ -486,13 +499,13 @@ fn cases(thorough: bool) -> Vec<Case> {
                 }
                 if co == "yield" {
                     for late in [false, true] {
-                        v.push(Case { n, answer: answer.clone(), kind: ORPHAN_OVERFLOW.to_string(), cut: 0, late, coalescing: co.to_string(), read_chunk: 0, keepalive_everywhere: false, prefill: 0, big: 0 });
+                        v.push(Case { n, answer: answer.clone(), kind: ORPHAN_OVERFLOW.to_string(), cut: 0, late, coalescing: co.to_string(), read_chunk: 0, keepalive_everywhere: false, prefill: 0, big: 0, wblock: -1 });
                     }
                 }
                 for kind in BAD_KINDS {
                     for k in 0..=answer.len() {
                         for late in [false, true] {
-                            v.push(Case { n, answer: answer.clone(), kind: kind.to_string(), cut: k, late, coalescing: co.to_string(), read_chunk: 0, keepalive_everywhere: false, prefill: 0, big: 0 });
+                            v.push(Case { n, answer: answer.clone(), kind: kind.to_string(), cut: k, late, coalescing: co.to_string(), read_chunk: 0, keepalive_everywhere: false, prefill: 0, big: 0, wblock: -1 });
                         }
                     }
                 }
@@ -509,7 +522,32 @@ fn cases(thorough: bool) -> Vec<Case> {
                     if !thorough && (read_chunk == 4096 || kind == "read-error") && big % 2 == 0 {
                         continue;
                     }
-                    v.push(Case { n: 2, answer, kind: kind.to_string(), cut, late: false, coalescing: "yield".into(), read_chunk, keepalive_everywhere: false, prefill: 0, big });
+                    v.push(Case { n: 2, answer, kind: kind.to_string(), cut, late: false, coalescing: "yield".into(), read_chunk, keepalive_everywhere: false, prefill: 0, big, wblock: -1 });
+                }
+            }
+        }
+    }
+    // the peer stays connected but STOPS READING: the stream accepts k request bytes in total (nothing / mid first frame /
+    // exactly the first frame / mid second frame), further writes stay pending, requests sit queued or half-written on the
+    // driver's side - and then the connection dies on the read side or by keep-alive timeout
+    {
+        let f0 = 9 + caller_spec(0).request_body.len();
+        for n in 1..=2usize {
+            let ks: Vec<usize> = if n == 1 { vec![0, 5, f0] } else { vec![0, 5, f0, f0 + 5] };
+            for k in ks {
+                for co in ["yield", "off"] {
+                    for kind in ["silence", "eof", "read-error", "garbage-header", "unsolicited-stream"] {
+                        let mut answers: Vec<(Vec<usize>, usize)> = vec![(vec![], 0)];
+                        if k >= f0 {
+                            // the request that got through is answered completely before the fault
+                            answers.push((vec![0], if is_cut_kind(kind) { usize::MAX } else { 1 }));
+                        }
+                        for (answer, cut) in answers {
+                            for late in [false, true] {
+                                v.push(Case { n, answer: answer.clone(), kind: kind.to_string(), cut, late, coalescing: co.to_string(), read_chunk: 0, keepalive_everywhere: kind != "silence" && late, prefill: 0, big: 0, wblock: k as i64 });
+                            }
+                        }
+                    }
                 }
             }
         }
@@ -528,7 +566,7 @@ fn cases(thorough: bool) -> Vec<Case> {
                 for cut in cuts {
                     for kind in ["silence", "silence-after-keepalive"] {
                         for late in [false, true] {
-                            v.push(Case { n, answer: answer.clone(), kind: kind.to_string(), cut, late, coalescing: "yield".into(), read_chunk: 0, keepalive_everywhere: false, prefill: 32768 - j, big: 0 });
+                            v.push(Case { n, answer: answer.clone(), kind: kind.to_string(), cut, late, coalescing: "yield".into(), read_chunk: 0, keepalive_everywhere: false, prefill: 32768 - j, big: 0, wblock: -1 });
                         }
                     }
                 }
@@ -572,7 +610,7 @@ fn main() {
     let thorough = r.tier().is_thorough();
     let forced_bound: Option<u32> = r.args.extra_value("--bound").and_then(|s| s.parse().ok());
     // quick: bound 2 for n<=2 and bound 1 for n=3; thorough: bound 3 throughout
-    let bound_for = |c: &Case| -> u32 { if c.kind == ORPHAN_OVERFLOW || c.prefill > 0 { return if thorough { 1 } else { 0 }; } if c.big > 0 { return 1; } forced_bound.unwrap_or(if thorough { 3 } else if c.n <= 2 { 2 } else { 1 }) };
+    let bound_for = |c: &Case| -> u32 { if c.kind == ORPHAN_OVERFLOW || c.prefill > 0 { return if thorough { 1 } else { 0 }; } if c.big > 0 { return 1; } if c.wblock >= 0 { return if thorough { 2 } else { 1 }; } forced_bound.unwrap_or(if thorough { 3 } else if c.n <= 2 { 2 } else { 1 }) };
     let bound = forced_bound.unwrap_or(if thorough { 3 } else { 1 });
     let audit_every: u64 = if thorough { 16 } else { 4 };
     let all = cases(thorough);
@@ -597,6 +635,9 @@ fn main() {
             r_ref.counters.add(&format!("executions_kind_{}", case.kind), 1);
             if case.prefill > 0 {
                 r_ref.counters.add("executions_with_stream_ids_exhausted_or_nearly(prefill 32768-j)", 1);
+            }
+            if case.wblock >= 0 {
+                r_ref.counters.add("executions_peer_stopped_reading(writes pending after k bytes)", 1);
             }
             if !run.cut_class.is_empty() {
                 r_ref.counters.add(&format!("executions_cut_{}", run.cut_class), 1);
@@ -631,7 +672,7 @@ fn main() {
             }
             if let Err(wt) = &verdict {
                 let (k, t) = split_key(wt);
-                r_ref.violation(&format!("{k}:{}", case.kind), &format!("{t} [case: n={} answered={:?} kind={} cut={} late={} coalescing={} read_chunk={}]", case.n, case.answer, case.kind, case.cut, case.late, case.coalescing, case.read_chunk), case.to_json(&choices));
+                r_ref.violation(&format!("{k}:{}", case.kind), &format!("{t} [case: n={} answered={:?} kind={} cut={} late={} coalescing={} read_chunk={}{}{}{}]", case.n, case.answer, case.kind, if case.cut == usize::MAX { "end".to_string() } else { case.cut.to_string() }, case.late, case.coalescing, case.read_chunk, if case.wblock >= 0 { format!(" peer-stops-reading-after={}B", case.wblock) } else { String::new() }, if case.prefill > 0 { format!(" prefilled-ids={}", case.prefill) } else { String::new() }, if case.big > 0 { format!(" big-body={}", case.big) } else { String::new() }), case.to_json(&choices));
             }
             verdict.map(|_| ())
         });
@@ -667,7 +708,7 @@ fn main() {
     for c in all.iter().filter(|c| c.n == 3 && c.answer.len() == 2).take(2) {
         r.sample(c.to_json(&[]));
     }
-    r.set_rule(&format!("E-ASYNC fault enumeration on the real Connection::router: n=1..3 requests in flight x ordered subsets of answered requests ({}) x EVERY cut offset 0..=len of the response byte stream x {{eof, read-error, write-error(+a later request), silence with keep-alive {KEEPALIVE_INTERVAL_MS}/{KEEPALIVE_TIMEOUT_MS}ms and virtual time advanced past both, silence after one answered keep-alive}} and, after every whole number of frames, x {{garbage header, version 3, client-direction bit, unknown opcode, frame on a stream nobody waits on, second answer on an answered stream, negative stream, event frame}}; plus the driver's own give-up (1030 abandoned requests unanswered for over a second) per answered subset; plus response bodies of 32767/32768/32769/40000/65535/65536/65537/100000 bytes written back-to-back with the next response in one delivery (unlimited / 4096 / 50000-byte reads) before the fault; plus stream-id exhaustion x silent stall x keep-alive (router map pre-filled by 32768-j real allocate calls, j=0,1,2, 1..2 callers, every pre-filled handler must be failed too); x a late request after the fault; every case explored by E-DFS over task scheduling and fault timing (fault together with / after the bytes) up to deviation bound {bound} (n=3) / {} (n<=2). evaluations = executions; distinct_nontrivial = distinct cases in which at the fault some request was completely or partially answered while another (or the same) was still owed. replays for the determinism audit: 1 in {audit_every} executions, full observation trace compared.", "all 1+2+5+16 of them; write coalescing yield/off (thorough: +1ms, + keep-aliver armed during the other faults)", if thorough { bound } else { bound + 1 }));
+    r.set_rule(&format!("E-ASYNC fault enumeration on the real Connection::router: n=1..3 requests in flight x ordered subsets of answered requests ({}) x EVERY cut offset 0..=len of the response byte stream x {{eof, read-error, write-error(+a later request), silence with keep-alive {KEEPALIVE_INTERVAL_MS}/{KEEPALIVE_TIMEOUT_MS}ms and virtual time advanced past both, silence after one answered keep-alive}} and, after every whole number of frames, x {{garbage header, version 3, client-direction bit, unknown opcode, frame on a stream nobody waits on, second answer on an answered stream, negative stream, event frame}}; plus the driver's own give-up (1030 abandoned requests unanswered for over a second) per answered subset; plus response bodies of 32767/32768/32769/40000/65535/65536/65537/100000 bytes written back-to-back with the next response in one delivery (unlimited / 4096 / 50000-byte reads) before the fault; plus 'peer stops reading' (the stream accepts 0 / 5 / one frame / one frame + 5 request bytes, then writes stay pending; 1..2 callers with requests queued, unflushed or half-written; coalescing yield/off) x {{silence + keep-alive timeout, EOF, read error, garbage header, unsolicited stream}}; plus stream-id exhaustion x silent stall x keep-alive (router map pre-filled by 32768-j real allocate calls, j=0,1,2, 1..2 callers, every pre-filled handler must be failed too); x a late request after the fault; every case explored by E-DFS over task scheduling and fault timing (fault together with / after the bytes) up to deviation bound {bound} (n=3) / {} (n<=2). evaluations = executions; distinct_nontrivial = distinct cases in which at the fault some request was completely or partially answered while another (or the same) was still owed. replays for the determinism audit: 1 in {audit_every} executions, full observation trace compared.", "all 1+2+5+16 of them; write coalescing yield/off (thorough: +1ms, + keep-aliver armed during the other faults)", if thorough { bound } else { bound + 1 }));
     r.assume("write error alone is invisible to a router that has nothing to write: that kind always adds a later request, which must make the router notice");
     r.assume("select!-branch randomness inside the router is audited by trace-equal replays, not owned");
     r.finish();
